@@ -201,6 +201,9 @@ mut("c14_close_takes_blob_first", "src/storage/core.rs", """            if let S
 mut("c14_create_in_caller", "src/storage/core.rs", """            let blob = tokio::spawn(async move { Blob::open_new(next, iodriver, config).await })
                 .await
                 .map_err(|e| anyhow!("BLOB creation task failed: {}", e))??;""", "            let blob = Blob::open_new(next, iodriver, config).await?;", ["C14"], "reverts fix F10: blob creation cancellable")
+mut("c12_no_recheck_after_sync", "src/storage/core.rs", """            if !still_dirty
+                || self.fsync_in_progress""", """            if true || !still_dirty
+                || self.fsync_in_progress""", ["C12"], "reverts fix: no re-check of dirty bytes after a background sync")
 # ---- C15
 mut("c15_count_from_keys", "src/blob/index/bptree/serializer.rs", "            let headers_len = self\n                .headers_btree\n                .iter()\n                .fold(0, |acc, (_k, v)| acc + v.len());", "            let headers_len = self\n                .headers_btree\n                .iter()\n                .fold(0, |acc, (_k, v)| acc + v.len().min(1));", ["C15", "C09"], "on-disk records_count from keys")
 mut("c15_disk_used_no_active", "src/storage/core.rs", "            result += ablob.read().await.disk_used();", "            result += 0 * ablob.read().await.disk_used();", ["C15"])
@@ -289,3 +292,17 @@ if __name__ == "__main__":
     names = args[0].split(",") if args else []
     res = run(names, slot, tier, only)
     print(json.dumps(res))
+    # persist (merge) the verdicts
+    path = "/verif/mutation_results.json"
+    try:
+        allr = json.load(open(path))
+    except Exception:
+        allr = {}
+    for k, v in res.items():
+        if isinstance(v, dict) and "error" not in v:
+            e = allr.setdefault(k, {"checks": {}, "note": M[k]["note"], "file": M[k]["file"]})
+            e["note"] = M[k]["note"]
+            for c, verdict in v.items():
+                if verdict != "INCONCLUSIVE" or c not in e["checks"]:
+                    e["checks"][c] = verdict
+    json.dump(allr, open(path, "w"), indent=1, sort_keys=True)
